@@ -13,6 +13,15 @@ import (
 	"github.com/protolambda/zrnt/eth2/beacon/common"
 )
 
+// Deadline is the time budget of a run (zero = none): when it has passed, workers stop ISSUING calls, the
+// run joins and reports what it covered. Running out of time is never a finding.
+var Deadline time.Time
+
+// LastCalls is the number of calls the last runWorkers actually performed.
+var LastCalls int
+
+func overBudget() bool { return !Deadline.IsZero() && time.Now().After(Deadline) }
+
 // Out collects the protocol lines of one run: `stat k v`, `violation <descriptor>`, `blocked T.M`, `note ..`.
 type Out struct {
 	mu    sync.Mutex
@@ -115,6 +124,8 @@ type inflight struct {
 // then the blocked operations have been printed.
 func runWorkers(e *Env, ops []Op, plan [][]int, iters int, timeout time.Duration, out *Out, onRes func(g, k int, o Op, res string)) bool {
 	slots := make([]inflight, len(plan))
+	counts := make([]int, len(plan)) // each written by its own goroutine only, read after the join
+	LastCalls = 0
 	var wg sync.WaitGroup
 	start := make(chan struct{})
 	for g := range plan {
@@ -123,6 +134,10 @@ func runWorkers(e *Env, ops []Op, plan [][]int, iters int, timeout time.Duration
 			defer wg.Done()
 			<-start
 			for k := 0; k < iters; k++ {
+				if k%16 == 0 && overBudget() {
+					break
+				}
+				counts[g]++
 				oi := plan[g][k%len(plan[g])]
 				o := ops[oi]
 				slots[g].since.Store(time.Now().UnixNano())
@@ -147,6 +162,9 @@ func runWorkers(e *Env, ops []Op, plan [][]int, iters int, timeout time.Duration
 	for len(blocked) == 0 {
 		select {
 		case <-done:
+			for _, c := range counts {
+				LastCalls += c
+			}
 			return true
 		case <-time.After(timeout):
 		}
@@ -236,7 +254,7 @@ func Pair(a, b Op, prefill []Op, iters int, timeout time.Duration, out *Out) {
 			panics.Add(1)
 		}
 	})
-	out.Stat("pair_calls", len(plan)*iters)
+	out.Stat("pair_calls", LastCalls)
 	out.Stat("pair_panics", int(panics.Load()))
 	if ok {
 		fmt.Fprintf(out.W, "returned %s %s\n", a.Name(), b.Name())
@@ -252,7 +270,7 @@ func Pair(a, b Op, prefill []Op, iters int, timeout time.Duration, out *Out) {
 func NonLin(o Op, rounds, goroutines int, timeout time.Duration, out *Out) {
 	hits := atomic.Int64{}
 	calls := 0
-	for r := 0; r < rounds && hits.Load() == 0; r++ {
+	for r := 0; r < rounds && hits.Load() == 0 && !overBudget(); r++ {
 		e := NewEnv()
 		plan := make([][]int, goroutines)
 		for g := range plan {
@@ -383,7 +401,10 @@ func StressRace(comp string, goroutines, iters int, seed int64, timeout time.Dur
 			panics.Store(o.Name(), true)
 		}
 	})
-	out.Stat("race_calls_"+comp, goroutines*iters)
+	out.Stat("race_calls_"+comp, LastCalls)
+	if overBudget() {
+		out.Note(fmt.Sprintf("time budget reached: %d of %d planned calls made", LastCalls, goroutines*iters))
+	}
 	out.Stat("race_ops_"+comp, len(live))
 	panics.Range(func(k, v interface{}) bool {
 		out.Note("panic under concurrency only (sequential probe was clean): " + k.(string))
@@ -516,7 +537,7 @@ func linPubkey(goroutines, iters int, timeout time.Duration, out *Out) {
 		rounds = 1
 	}
 	calls, viol := 0, 0
-	for r := 0; r < rounds; r++ {
+	for r := 0; r < rounds && !overBudget(); r++ {
 		e := NewEnv()
 		h := newHistory(goroutines)
 		ok := runLin(goroutines, timeout, out, func(g int, set func(string)) {
@@ -611,7 +632,7 @@ func linPools(goroutines, iters int, timeout time.Duration, out *Out) {
 		out.Note("skip lin AttestationPool: sequential panic")
 	}
 	ok := runLin(goroutines, timeout, out, func(g int, set func(string)) {
-		for k := 0; k < iters; k++ {
+		for k := 0; k < iters && !(k%8 == 0 && overBudget()); k++ {
 			x := (k*7 + g*3) % NItems
 			for _, p := range pools {
 				if probe[p.typ+"."+p.add] || probe[p.typ+"."+p.all] {
@@ -794,7 +815,7 @@ func linFC(goroutines, iters int, timeout time.Duration, out *Out) {
 	ok := runLin(goroutines, timeout, out, func(g int, set func(string)) {
 		w := g % NChains
 		writer := g < NChains
-		for k := 0; k < iters; k++ {
+		for k := 0; k < iters && !(k%8 == 0 && overBudget()); k++ {
 			if writer {
 				if k < NBlocks {
 					b := e.Chains[w][k]
